@@ -178,8 +178,10 @@ def attr_head(toks, a):
 
 
 def is_zeroize_cfg(toks, a):
+    # cfg gates that are taken as ENABLED by the extraction (recorded under dropped_by_extraction): zeroize (the Drop
+    # impls) and block-padding (default feature of the mode crates; gates the padded front-ends of the dependency)
     txt = ''.join(t.text for t in toks[a[0]:a[1]])
-    return txt == '#[cfg(feature="zeroize")]'
+    return txt in ('#[cfg(feature="zeroize")]', '#[cfg(feature="block-padding")]')
 
 
 def mk(kind, text, ws=' '):
@@ -308,6 +310,14 @@ def transform(toks, it, hoist_names=None, hoist_suffix=None, is_member=False, re
                         out.append(mk('punct' if tx in '()' else 'ident', tx, ' ' if tx == 'assert' else ''))
                 res.dropped.append(('rewrite', '%s!(..) -> let-bound operands + Verus assert (proof obligation)' % t.text))
                 j = k + 1
+                continue
+            if t.text == '|' and toks[j - 1].text in ('(', ',') and j + 2 < hi and toks[j + 1].text == '_' and toks[j + 2].text == '|':
+                # `|_| expr`: wildcard closure parameter (not accepted by this Verus) -> `|_pat| expr`
+                emit(t)
+                out.append(mk('ident', '_pat', ''))
+                emit(toks[j + 2])
+                res.dropped.append(('rewrite', 'closure parameter `|_|` -> `|_pat|`'))
+                j += 3
                 continue
             if t.text == '|' and toks[j - 1].text in ('(', ',') and j + 2 < hi and toks[j + 1].kind == 'ident' \
                     and toks[j + 1].text[:1].isupper() and toks[j + 2].text == '|':
